@@ -18,9 +18,9 @@ func init() {
 			"(R3) every send on Iterator.Next in the four storage backends is reachable only across key-prefix, CheckValidity and MatchesRecord tests (sibling agreement), Controller.Get/GetMeta return only across CheckValidity; " +
 			"(R4) the read cache cannot serve deleted/expired records: Delete evicts (or the cache path validates), cache entries get the relative expiry as TTL, FlushCache flushes exactly when a write cache exists; " +
 			"(R5) MaintainRecordStates decision tables (hashmap, bbolt) by finite-valuation propagation over ordering representatives: physical removal only of invisible records, shadow-marking only of expired undeleted records, and Controller.Put's delete/put table; " +
-			"(R6) purge loops delete only behind prefix/not-deleted/match tests and terminate only at end of data, prefix end or cancellation (a batch boundary does not end the purge); (R7) siblings map 'absent' alike. " +
+			"(R6) purge loops delete only behind prefix/not-deleted/match tests and terminate only at end of data, prefix end or cancellation (a batch boundary does not end the purge); (R7) siblings map 'absent' alike; (R8) the directory walk of the file-tree backend starts at a root that contains every file whose path extends the query prefix (the prefix path itself only when it was tested to be a directory, otherwise its parent or the base path), the callback's key-prefix filter being part of R3. " +
 			"NOT decided: equivalence with a reference map over operation histories, operator semantics through the accessors, physical state after crashes.",
-		Rules: []ruleFn{c02R1, c02R2, c02R3, c02R4, c02R5, c02R6, c02R7},
+		Rules: []ruleFn{c02R1, c02R2, c02R3, c02R4, c02R5, c02R6, c02R7, c02R8},
 	})
 }
 
@@ -703,4 +703,102 @@ func c02R7(c *Ctx, r *Report) {
 		r.Check(ok, rule, name+" / not-found translation", "returns database.ErrNotFound", "never returns database.ErrNotFound")
 	}
 	_ = sort.Strings
+}
+
+// c02R8: fstree query walk root. A prefix such as "users/al" names every key
+// that extends it, including siblings inside the same directory; walking only
+// the prefix path when it is a plain file loses them.
+func c02R8(c *Ctx, r *Report) {
+	const rule = "C02-R8"
+	r.SetFloor(rule, 1)
+	fn := c.Func("database/storage/fstree.(*FSTree).Query")
+	ex := c.Func("database/storage/fstree.(*FSTree).queryExecutor")
+	if fn == nil || ex == nil {
+		r.Undecided(rule, "fstree.(*FSTree).Query", "anchor function missing")
+		return
+	}
+	// queryExecutor walks its first parameter
+	walks := callsIn(ex, "path/filepath.Walk", "path/filepath.WalkDir")
+	if len(walks) == 0 {
+		r.Undecided(rule, fnKey(ex)+" / filepath.Walk", "no directory walk found")
+		return
+	}
+	rootParam := -1
+	for _, w := range walks {
+		p, ok := w.Common().Args[0].(*ssa.Parameter)
+		if !ok {
+			r.Undecided(rule, fnKey(ex)+" / filepath.Walk root", "walk root is not a parameter of the executor: "+vpath(w.Common().Args[0]))
+			return
+		}
+		for i, q := range ex.Params {
+			if q == p {
+				rootParam = i
+			}
+		}
+	}
+	var launches []ssa.CallInstruction
+	eachInstr(fn, func(in ssa.Instruction) {
+		if ci, ok := in.(ssa.CallInstruction); ok && staticCallee(ci.Common()) == ex {
+			launches = append(launches, ci)
+		}
+	})
+	if len(launches) == 0 || rootParam < 0 {
+		r.Undecided(rule, fnKey(fn)+" / launch of queryExecutor", "launch not found")
+		return
+	}
+	isPrefixPath := func(v ssa.Value) bool {
+		call, idx := callOf(v)
+		return call != nil && idx == 0 && calleeName(&call.Call) == "database/storage/fstree.FSTree.buildFilePath"
+	}
+	isDirGuard := Guard{Name: "Stat(prefix path).IsDir()==true", Truthy: true, Match: func(b ssa.Value) bool {
+		call, ok := b.(*ssa.Call)
+		if !ok || !call.Call.IsInvoke() || call.Call.Method.Name() != "IsDir" {
+			return false
+		}
+		st, idx := callOf(call.Call.Value)
+		return st != nil && idx == 0 && (calleeName(&st.Call) == "os.Stat" || calleeName(&st.Call) == "os.Lstat") && isPrefixPath(st.Call.Args[0])
+	}}
+	for li, l := range launches {
+		cons := fmt.Sprintf("%s / walk root #%d", fnKey(fn), li+1)
+		var bad, undec []string
+		seen := map[ssa.Value]bool{}
+		var visit func(v ssa.Value, guarded bool)
+		visit = func(v ssa.Value, guarded bool) {
+			if ph, ok := v.(*ssa.Phi); ok {
+				if seen[v] {
+					return
+				}
+				seen[v] = true
+				for i, e := range ph.Edges {
+					visit(e, guarded || phiEdgeGuarded(fn, ph, i, isDirGuard))
+				}
+				return
+			}
+			switch {
+			case isPrefixPath(v):
+				if !guarded {
+					bad = append(bad, "the prefix path itself is used as walk root without having been tested to be a directory")
+				}
+			case fieldLoadOf(v, "database/storage/fstree.FSTree", "basePath"):
+			default:
+				if call, ok := isCallTo(v, "path/filepath.Dir"); ok && isPrefixPath(call.Call.Args[0]) {
+					return
+				}
+				if cst, ok := v.(*ssa.Const); ok && cst.Value != nil {
+					// the zero value of an unassigned root on paths that return an error
+					return
+				}
+				undec = append(undec, "walk root of unrecognised shape: "+vpath(v))
+			}
+		}
+		visit(l.Common().Args[rootParam], false)
+		switch {
+		case len(bad) > 0:
+			r.Bad(rule, cons, bad[0], c.Pos(l.Pos()))
+		case len(undec) > 0:
+			r.Undecided(rule, cons, undec[0])
+		default:
+			r.OK(rule, cons, "walk root is the prefix path only when it is a directory, else its parent directory")
+		}
+	}
 }
